@@ -29,8 +29,15 @@ MANIFEST = {
                      "conformance of the real handlers on TLC behaviours, random histories and all orders of fixed event multisets.",
                 ref="6/C02", note=PROC_NOTE, technique="TLA+ model checking (TLC) + trace validation incl. permutation (confluence) histories"),
     "C03": dict(text="InvalidObservationNoEffect is model-checked; the real observation handler is driven with every single-mutation class of "
-                     "valid observations before/after set changes and TLC validates that the projected state is unchanged.",
-                ref="6/C03", note=PROC_NOTE, technique="TLA+ model checking (TLC) + trace validation of gossip verifiers"),
+                     "valid observations before/after set changes and TLC validates that the projected state is unchanged. Gossip.tla "
+                     "(heartbeat / request verifiers, the table cap also under concurrent calls) and P2PLoop.tla (the receive and send loops "
+                     "of p2p.Run: routing by kind, own publications ignored, only verified requests reach the router, the node's own requests "
+                     "and heartbeats signed under their domain) are model-checked, and the real verifiers and the real p2p.Run - libp2p host, "
+                     "DHT, GossipSub, under a real supervisor, with harness peers on a simulated transport - are validated line by line.",
+                ref="6/C03", note=PROC_NOTE + " The transport below libp2p is simulated (quic multiaddrs carried over loopback TCP with libp2p-TLS and yamux through "
+                "libp2p's own upgrader), because quic-go does not compile with the installed toolchain; everything above it is the unmodified code. A rejection of the "
+                "real-time p2p.Run leg counts only if the same history, replayed alone, is rejected again with the same signature.",
+                technique="TLA+ model checking (TLC) + trace validation of the gossip verifiers and of the real p2p.Run loop (simulated transport)"),
     "C13": dict(text="The specification is total over the adversarial input alphabet; histories over that alphabet (TLC behaviours and seeded "
                      "generators) run on the real handlers under recover(); a panic is a trace line no specification action matches.",
                 ref="6/C13", note=PROC_NOTE, technique="TLA+ specification as generator/oracle (TLC) + trace validation; panic = rejected line"),
